@@ -17,7 +17,8 @@ COQ_PROOFS = ["C14I/IProofs.v", "C14I/M2VProofs.v", "C14I/PropsInline.v"]
 
 
 class FnExport:
-    """one function as Coq `func` literal; variables numbered through a shared dict (so before / after agree)"""
+    """one function as Coq `func` literal; variables numbered through a shared dict (so before / after agree).  The
+    instructions are snapshotted at construction (the passes mutate IRInstruction objects in place), rendering is lazy."""
 
     def __init__(self, fn, var_ids, fids, foreign):
         self.fn = fn
@@ -25,6 +26,8 @@ class FnExport:
         self.blocks = list(fn.get_basic_blocks())
         self.entry_first = bool(self.blocks) and self.blocks[0] is fn.entry
         self.lab = {bb.label.value: i for i, bb in enumerate(self.blocks)}
+        self.name = fn.name.value
+        self.rows = [(bb.label.value, [(i.opcode, tuple(i.operands), tuple(i.get_outputs())) for i in bb.instructions]) for bb in self.blocks]
 
     def v(self, var):
         k = var.value
@@ -48,19 +51,33 @@ class FnExport:
             return f"OLab {self.foreign[o.value]}%N"
         raise ValueError(f"operand {o!r}")
 
-    def inst(self, i):
-        args = "; ".join(self.operand(o) for o in i.operands)
-        outs = "; ".join(f"{self.v(o)}%N" for o in i.get_outputs())
-        return f'mkI "{i.opcode}" [{args}] [{outs}]'
-
     def term(self):
-        return "[" + ";\n ".join("[" + "; ".join(self.inst(i) for i in bb.instructions) + "]" for bb in self.blocks) + "]"
+        def inst(r):
+            args = "; ".join(self.operand(o) for o in r[1])
+            outs = "; ".join(f"{self.v(o)}%N" for o in r[2])
+            return f'mkI "{r[0]}" [{args}] [{outs}]'
+        return "[" + ";\n ".join("[" + "; ".join(inst(r) for r in rows) + "]" for _, rows in self.rows) + "]"
 
     def text(self):
-        return str(self.fn)
+        """the snapshot in the compiler's own text form (operands are printed in reverse, see IRInstruction.__repr__)"""
+        out = [f"function {self.name} {{"]
+        for lab, rows in self.rows:
+            out.append(f"  {lab}:")
+            for op, ops, outs in rows:
+                ops = list(ops)
+                if op == "invoke":
+                    ops = [ops[0]] + list(reversed(ops[1:]))
+                elif op not in ("jmp", "jnz", "djmp", "phi", "dret", "retfmp"):
+                    ops = list(reversed(ops))
+                from vyper.venom.basicblock import IRLabel
+                rhs = ", ".join(("@" + str(o.value)) if isinstance(o, IRLabel) else str(o) for o in ops)
+                lhs = (", ".join(str(o) for o in outs) + " = ") if outs else ""
+                out.append(f"      {lhs}{'' if op == 'assign' else op + ' '}{rhs}".rstrip())
+        out.append("}")
+        return "\n".join(out)
 
     def ninsts(self):
-        return sum(len(bb.instructions) for bb in self.blocks)
+        return sum(len(rows) for _, rows in self.rows)
 
 
 class Observer:
